@@ -117,7 +117,16 @@ def canary_text(built):
                 kk = c2 + 2
             else:
                 break
-        seg2 = seg[:a_] + " let r__ = {" + seg[a_:b_] + "}; proof { assert(false); } r__ " + seg[b_:]
+        # a body whose end is unreachable (an endless `loop` left only through `return`) would make the final assertion
+        # vacuous: every `return` that starts a statement gets the same assertion in front of it
+        body = seg[a_:b_]
+        ins = []
+        for q in range(k + 1, e):
+            if toks[q].s == "return" and toks[q - 1].s in ("{", ";", "}") and toks[q].a >= a_:
+                ins.append(toks[q].a - a_)
+        for off in reversed(ins):
+            body = body[:off] + "proof { assert(false); } " + body[off:]
+        seg2 = seg[:a_] + " let r__ = {" + body + "}; proof { assert(false); } r__ " + seg[b_:]
         lines[l0 - 1:l1] = seg2.split("\n")
         marks.append((fn["label"], l0, l1))
     return "\n".join(lines), marks
